@@ -9,7 +9,7 @@ RawSocket, Twisted and asyncio); the harness is the scripted router, the user an
 This module generates the cases:
 
 * tree      - EVERY step sequence up to a bounded length over {CHALLENGE (<=2), WELCOME, ABORT, WELCOME+GOODBYE in
-              one read, router GOODBYE, local leave() (<=2), local disconnect(), issue requests, one illegal
+              one read, router GOODBYE (reply / crossing), local leave() (<=2), local disconnect(), issue requests, one illegal
               message, completion of the client's own transport close}, and after EVERY prefix the transport is
               lost (clean and unclean) or the conversation just ends (fault enumeration: loss at every position
               of every conversation), crossed with every single deviating user callback that the sequence reaches
@@ -399,7 +399,7 @@ def replay(case, R):
 MANIFEST_ENTRY = {
     "text": ("A real ApplicationSession behind the real client transport (WAMP-over-WebSocket and RawSocket, Twisted and "
              "asyncio) is driven by a scripted router through every step sequence up to a bounded length over CHALLENGE (0-2 "
-             "rounds), WELCOME, ABORT, WELCOME+GOODBYE in one read, router GOODBYE, local leave()/disconnect(), outstanding "
+             "rounds), WELCOME, ABORT, WELCOME+GOODBYE in one read, router GOODBYE (reply or crossing), local leave()/disconnect(), outstanding "
              "requests of all six kinds and one illegal message at any position; the transport is lost (clean and unclean) after "
              "every prefix of every conversation; each user callback (onConnect/onChallenge/onWelcome/onJoin/onLeave/"
              "onDisconnect) returns, raises, denies, leaves or skips the default implementation; all 64 populations of the six "
